@@ -1,6 +1,7 @@
 #!/bin/sh
-# usage: confirm_round.sh <round> <prop> — confirms /tmp/wt/out<round>_<prop>/m1..3 as <prop>-m(3*(round-1)+1..3)
-R=$1; P=$2; OFF=$(( (R-1)*3 ))
+# usage: confirm_round.sh <round> <prop> [<name-round>] — confirms /tmp/wt/out<round>_<prop>/m1..3 as
+# <prop>-m(3*(name-round-1)+1..3); name-round defaults to round (the second half of round 8 ran in directories named r9_/out9_)
+R=$1; P=$2; NR=${3:-$R}; OFF=$(( (NR-1)*3 ))
 for i in 1 2 3; do
   echo "== $P m$i -> $P-m$((i+OFF))"
   python3 /verif/scripts/confirm_seed.py $P /tmp/wt/out${R}_$P/m$i --worktree /tmp/wt/r${R}_$P --keep-as $P-m$((i+OFF)) 2>&1 | grep -E "check:|detected|VIOL|cannot|NOT CONF|FAILED" | cut -c1-300
